@@ -873,6 +873,13 @@ def strseq(sv):
     raise Unsupported("list of " + repr(sv.ty) + " where a list of str is expected")
 
 
+def from_callback(a, h, h2, e):
+    """an exception case that stands for "the user's callback raised": only exceptions that come out of the callback call are covered by it"""
+    if not hasattr(e, "origin"):
+        return []       # at a call site (the case is assumed, there is no exception value yet)
+    return [z3.BoolVal("callback" in e.origin)]
+
+
 def declare_sender(w):
     from pyvc import extract
 
@@ -1008,7 +1015,13 @@ def declare_sender(w):
 
     w.contracts[f"{RSYNC}:RSync._send_link_structure"].requires = lambda a, h: sender_req(a, h)
     SMOD = lambda a, h: [("RSync", a.self, "_links"), ("RSync", a.self, "$out")]
-    w.add(Contract(SDS, {"self": REF("RSync"), "path": STR}, requires=sender_req, modifies=SMOD,
+
+    def at_or_below(a, h):
+        # the walk starts at the source directory itself (which is not a symlink: a link's name relative to the source directory would be empty) and goes down
+        sd = h("RSync", a.self, "_sourcedir")
+        return [("path-is-the-source-directory-or-below-it", z3.Or(z3.And(a.path == sd, fsget(h, "kind", a.path) != K_LINK), z3.PrefixOf(z3.Concat(sd, SLASH), a.path)))] + sender_req(a, h)[1:]
+
+    w.add(Contract(SDS, {"self": REF("RSync"), "path": STR}, requires=at_or_below, modifies=SMOD,
                    cases=[Case("ok", post=sds_post), Case("closed", "raise", "OSError"), Case("special-file", "raise", "ValueError")], props=["C17"], allocates=True))
 
     def sd_post(a, h, h2, r):
@@ -1021,7 +1034,7 @@ def declare_sender(w):
                 z3.Implies(z3.And(i >= 0, i < slen(names)), fsget(h, "kind", z3.Concat(a.path, SLASH, names[i])) != K_ABSENT),
                 z3.PrefixOf(h("RSync", a.self, "_links"), h2("RSync", a.self, "_links"))]
 
-    w.add(Contract(SD, {"self": REF("RSync"), "path": STR}, requires=lambda a, h: sender_req(a, h) + [("a-directory", fsget(h, "kind", a.path) == K_DIR)], modifies=SMOD,
+    w.add(Contract(SD, {"self": REF("RSync"), "path": STR}, requires=lambda a, h: at_or_below(a, h) + [("a-directory", fsget(h, "kind", a.path) == K_DIR)], modifies=SMOD,
                    cases=[Case("ok", post=sd_post), Case("closed-or-vanished", "raise", "OSError"), Case("special-file", "raise", "ValueError")], props=["C17"], allocates=True))
 
     def sd_loop0(L):
@@ -1098,7 +1111,21 @@ def declare_sender(w):
         return [slen(S2) == slen(S) + 1,                                                                     # exactly one answer
                 z3.Or(m_data_none(u), z3.And(fsget(h, "kind", p) == K_FILE, m_data(u) == content)),          # content, when sent, is the source file's
                 z3.Implies(z3.And(fsget(h, "kind", p) == K_FILE, same), m_data_none(u)),                    # equal checksum: no content is transferred
-                z3.If(m_data_none(u), R2 == R, R2 == z3.Concat(R, z3.Unit(rel)))]                            # reported exactly when content is sent
+                z3.If(m_data_none(u), R2 == R, R2 == z3.Concat(R, z3.Unit(rel)))] + bookkeeping(a, h, h2, rel)    # reported exactly when content is sent
+
+    def bookkeeping(a, h, h2, rel):
+        """progress bookkeeping: the path gets a size, and is appended to what this target asked for (nothing else changes) - _list_done relies on both"""
+        P, P2 = h.sv("RSync", a.self, "_paths"), h2.sv("RSync", a.self, "_paths")
+        T, T2 = h.sv("RSync", a.self, "_to_send"), h2.sv("RSync", a.self, "_to_send")
+        before = z3.If(z3.Select(T.v[0], a.channel), z3.Select(T.v[1][0], a.channel), z3.Empty(z3.SeqSort(z3.StringSort())))
+        return [P2.v[0] == z3.Store(P.v[0], rel, True), T2.v[0] == z3.Store(T.v[0], a.channel, True),
+                T2.v[1][0] == z3.Store(T.v[1][0], a.channel, z3.Concat(before, z3.Unit(rel)))]
+
+    def sizes_known_for(a, h):
+        j = z3.Int("q_sk")
+        T, P = h.sv("RSync", a.self, "_to_send"), h.sv("RSync", a.self, "_paths")
+        lst = z3.Select(T.v[1][0], a.channel)
+        return z3.Implies(z3.Select(T.v[0], a.channel), z3.ForAll([j], z3.Implies(z3.And(j >= 0, j < slen(lst)), z3.Select(P.v[0], lst[j])), patterns=[lst[j]]))
 
     w.add(Contract(f"{RSYNC}:RSync._send_item", {"self": REF("RSync"), "channel": REF("Channel"), "modified_rel_path_components": SEQ(STR), "checksum": OPT(BYTES)},
                    requires=lambda a, h: [("channel", a.channel != 0)],
@@ -1147,7 +1174,7 @@ def declare_sender(w):
                    cases=[Case("ok", when=lambda a, h: z3.Select(chans(h, a.self).v[0], a.channel), post=done_post),
                           Case("not-a-target", "raise", "KeyError", when=lambda a, h: z3.Not(z3.Select(chans(h, a.self).v[0], a.channel)),
                                post=lambda a, h, h2, e: [core.eq_sv(chans(h2, a.self), chans(h, a.self))]),
-                          Case("callback-raises", "raise", "Exception"), Case("remote-error", "raise", "RemoteError"), Case("connection-lost", "raise", "EOFError"), Case("timeout", "raise", "OSError")],
+                          Case("callback-raises", "raise", "Exception", post=from_callback), Case("remote-error", "raise", "RemoteError"), Case("connection-lost", "raise", "EOFError"), Case("timeout", "raise", "OSError")],
                    props=["C17"]))
     w.add(Contract(f"{RSYNC}:RSync._end_of_channel", {"self": REF("RSync"), "channel": REF("Channel")}, requires=lambda a, h: [("channel", a.channel != 0)],
                    cases=[Case("already-done", when=lambda a, h: z3.Not(z3.Select(chans(h, a.self).v[0], a.channel))),      # the end marker of a finished target: nothing to do
@@ -1155,6 +1182,50 @@ def declare_sender(w):
                           Case("remote-error", "raise", "RemoteError", when=lambda a, h: z3.Select(chans(h, a.self).v[0], a.channel)),
                           Case("connection-lost", "raise", "EOFError", when=lambda a, h: z3.Select(chans(h, a.self).v[0], a.channel))],
                    props=["C17"]))
+    # ---- _list_done: the progress callback gets the total size of what this target asked for; a target that asked for nothing is not an error -------------
+    s.declare("RSync", "_callback", ANY)
+    s.declare("RSync", "$progress", SEQ(ANY), ghost=True)
+    LD = f"{RSYNC}:RSync._list_done"
+
+    def asked(h, me, ch):
+        ts = h.sv("RSync", me, "_to_send")
+        return z3.If(z3.Select(ts.v[0], ch), z3.Select(ts.v[1][0], ch), z3.Empty(z3.SeqSort(z3.StringSort())))
+
+    def sizes_known(a, h):
+        j = z3.Int("q_ld")
+        ts = h.sv("RSync", a.self, "_to_send")
+        paths = z3.Select(ts.v[1][0], a.channel)
+        return z3.Implies(z3.Select(ts.v[0], a.channel),
+                          z3.ForAll([j], z3.Implies(z3.And(j >= 0, j < slen(paths)), z3.Select(h.sv("RSync", a.self, "_paths").v[0], paths[j])), patterns=[paths[j]]))
+
+    w.add(Contract(LD, {"self": REF("RSync"), "channel": REF("Channel")},
+                   requires=lambda a, h: [("channel", a.channel != 0)],
+                   modifies=lambda a, h: [("RSync", a.self, "$progress")],
+                   cases=[Case("ok", post=lambda a, h, h2, r: [z3.If(symexec_truthy(h("RSync", a.self, "_callback")), slen(h2("RSync", a.self, "$progress")) == slen(h("RSync", a.self, "$progress")) + 1,
+                                                                     h2("RSync", a.self, "$progress") == h("RSync", a.self, "$progress"))]),
+                          Case("callback-raises", "raise", "Exception", post=from_callback),
+                          # only a requested path without a recorded size may be a KeyError (_send_item records both together; that bookkeeping invariant of send()'s loop is
+                          # not mechanised) - in particular NOT a target that requested no file
+                          Case("size-not-recorded", "raise", "KeyError", when=lambda a, h: z3.Not(sizes_known(a, h)))], props=["C17"]))
+    ld = LoopSpec(LD, "comp0", invariant=lambda L: [("params", z3.And(L.self == L.inp("self"), L.channel == L.inp("channel")))], props=["C17"])
+    ld.elem = INT
+    w.add_loop(ld)
+
+    prev_cb = w.call_hooks[("call", "any")]
+
+    def progress_callback(ex, callee, args, kwargs, st, sink, node):
+        me = st.locals.get("self")
+        if me is not None and me.ty == REF("RSync") and len(args) == 3 and not kwargs:
+            ex.set_field(st, me, "$progress", SV(SEQ(ANY), z3.Concat(st.heap.get(me, "$progress").v, z3.Unit(callee.v))))
+            s2 = st.fork()
+            e = core.ExcV("Exception", (), None, origin="progress callback")
+            e.exact = False
+            sink.append((s2, ("raise", e)))
+            yield st, core.NONEV
+            return
+        yield from prev_cb(ex, callee, args, kwargs, st, sink, node)
+
+    w.call_hooks[("call", "any")] = progress_callback
     w.add_loop(LoopSpec(PL, 0, invariant=lambda L: [("links-sent-so-far-in-order", sent(L.h, L.inp("channel")) == z3.Concat(sent(L.old, L.inp("channel")), z3.SubSeq(L.old("RSync", L.inp("self"), "_links"), 0, L.k))),
                                                      ("params", z3.And(L.channel == L.inp("channel"), L.self == L.inp("self")))],
                         havoc_cells=lambda L: [("Channel", L.inp("channel"), "$sent")], props=["C17"]))
@@ -1349,4 +1420,210 @@ def declare_walk_loops(w):
     l1 = LoopSpec(RDS, 1, invariant=lambda L: delete_loop(L), havoc_cells=lambda L: [("FS", FSR, "kind")], props=["C17"])
     l1.invariant_assume = lambda L: [f for _, f in delete_loop(L, gen=True)]
     w.add_loop(l1)
+    return w
+
+
+# ---------------------------------------------------------------------------------------------------------------------------------
+# RSync.send: normalisation of the source directory, the structure broadcast, then the dispatch loop over the targets' requests
+# ---------------------------------------------------------------------------------------------------------------------------------
+r_tag = z3.Function("r_tag", U, z3.StringSort())           # req[0]
+r_arg = z3.Function("r_arg", U, U)                          # req[1]
+a_comps = z3.Function("a_comps", U, z3.SeqSort(z3.StringSort()))   # ("send", (components, checksum)): req[1][0]
+a_ck_none = z3.Function("a_ck_none", U, z3.BoolSort())      # req[1][1] is None
+a_ck = z3.Function("a_ck", U, z3.StringSort())              # req[1][1]
+a_str = z3.Function("a_str", U, z3.StringSort())            # ("ack", path): req[1] as a str
+H_EOC, H_LINKS, H_DONE, H_LISTDONE, H_ITEM, H_NONE = 1, 2, 3, 4, 5, 0
+hev = z3.Function("hev", z3.IntSort(), z3.IntSort(), U, U)  # a handler invocation: (which handler, channel, payload)
+mkitem = z3.Function("mkitem", z3.SeqSort(z3.StringSort()), z3.BoolSort(), z3.StringSort(), U)
+NOPAY = z3.Const("NOPAY", U)
+served = z3.Function("served", z3.SeqSort(z3.IntSort()), z3.SeqSort(U), z3.IntSort(), z3.IntSort(), z3.SeqSort(U))   # handler invocations owed to queue entries lo..hi-1
+
+
+def req_code(r):
+    return z3.If(r == core.NONE_U, H_EOC, z3.If(r_tag(r) == z3.StringVal("links"), H_LINKS, z3.If(r_tag(r) == z3.StringVal("done"), H_DONE,
+           z3.If(r_tag(r) == z3.StringVal("list_done"), H_LISTDONE, z3.If(r_tag(r) == z3.StringVal("send"), H_ITEM, H_NONE)))))
+
+
+def entry_of(c, r):
+    return z3.If(req_code(r) == H_ITEM, hev(z3.IntVal(H_ITEM), c, mkitem(a_comps(r_arg(r)), a_ck_none(r_arg(r)), a_ck(r_arg(r)))), hev(req_code(r), c, NOPAY))
+
+
+def ax_served(t):
+    qc, qr, lo, hi = t.arg(0), t.arg(1), t.arg(2), t.arg(3)
+    prev = served(qc, qr, lo, hi - 1)
+    return [z3.Implies(hi <= lo, t == z3.Empty(z3.SeqSort(U))),
+            z3.Implies(hi > lo, t == z3.If(req_code(qr[hi - 1]) == H_NONE, prev, z3.Concat(prev, z3.Unit(entry_of(qc[hi - 1], qr[hi - 1])))))]
+
+
+ax_served.names = ["served"]
+
+
+def declare_send_loop(w):
+    """world `send`: the sender world plus RSync.send itself.  The handlers enter with their verified contracts extended by a history variable ($handled:
+    which handler ran for which channel with which arguments) - pure instrumentation of "a call happened", trusted here and nowhere else."""
+    declare_sender(w)
+    s = w.schema
+    w.axiom_providers.append(ax_served)
+    s.declare("RSync", "_receivequeue", REF("RQueue"))
+    s.declare("RSync", "$handled", SEQ(ANY), ghost=True)
+    s.declare("RQueue", "$chan", SEQ(REF("Channel")), ghost=True)   # every (channel, request) pair the targets will ever put, in arrival order (prophecy)
+    s.declare("RQueue", "$req", SEQ(ANY), ghost=True)
+    s.declare("RQueue", "$pos", INT, ghost=True)                    # how many have been taken
+    s.set_bases("RQueue", ["object"])
+    handled = lambda h, r: h("RSync", r, "$handled")
+    chans = lambda h, r: h.sv("RSync", r, "_channels")
+    qc = lambda h, q: h("RQueue", q, "$chan")
+    qr = lambda h, q: h("RQueue", q, "$req")
+    qpos = lambda h, q: h("RQueue", q, "$pos")
+    RSQ = lambda h, r: h("RSync", r, "_receivequeue")
+
+    def get_post(a, h, h2, r):
+        p = qpos(h, a.self)
+        return [p >= 0, p < slen(qr(h, a.self)), slen(qc(h, a.self)) == slen(qr(h, a.self)),      # get() returns only when an entry is there
+                r.v[0].v == qc(h, a.self)[p], r.v[1].v == qr(h, a.self)[p], r.v[0].v != 0, qpos(h2, a.self) == p + 1]
+
+    w.add(Contract("model:RQueue.get", {"self": REF("RQueue")}, modifies=lambda a, h: [("RQueue", a.self, "$pos")],
+                   cases=[Case("ok", restype=TUP(REF("Channel"), ANY), post=get_post)], trusted=True,
+                   note="queue.Queue.get without timeout: blocks until the item callback of some target has put (channel, request); requests of one channel arrive in the order sent (C02/C10)"))
+    w.attr_hooks[("RQueue", "get")] = lambda ex, st, recv: SV(FUNCT, ExternD("contract:model:RQueue.get", bound=recv))
+
+    # ---- the handlers as seen by send(): verified contract + history variable --------------------------------------------------------------------
+    def logged(target, code, payload=None):
+        real = w.contracts[target]
+        old_mod = real.modifies
+
+        def mod(a, h):
+            return (old_mod(a, h) if old_mod else []) + [("RSync", a.self, "$handled")]
+
+        def wrap(case):
+            def post(a, h, h2, r, _p=case.post):
+                pay = payload(a) if payload else NOPAY
+                return (_p(a, h, h2, r) if _p else []) + [handled(h2, a.self) == z3.Concat(handled(h, a.self), z3.Unit(hev(z3.IntVal(code), a.channel, pay)))]
+            c2 = Case(case.name, case.kind, case.exc, when=case.when, post=post, restype=getattr(case, "restype", None))
+            return c2
+        c = Contract(target, real.params, defaults=getattr(real, "defaults", None), requires=real.requires, modifies=mod, cases=[wrap(c_) for c_ in real.cases], trusted=True,
+                     note="verified in world snd; here extended by the history variable $handled", allocates=getattr(real, "allocates", False))
+        w.contracts.pop(target)
+        w.add(c)
+
+    logged(f"{RSYNC}:RSync._end_of_channel", H_EOC)
+    logged(f"{RSYNC}:RSync._process_link", H_LINKS)
+    logged(f"{RSYNC}:RSync._done", H_DONE)
+    logged(f"{RSYNC}:RSync._send_item", H_ITEM, lambda a: mkitem(a.modified_rel_path_components, a.sv("checksum").v[0], a.sv("checksum").v[1].v))
+    logged(f"{RSYNC}:RSync._list_done", H_LISTDONE)
+
+    # ---- requests are opaque items: tuples (tag, argument) or None ---------------------------------------------------------------------------------
+    def index_any(ex, base, idx, st, sink, node):
+        i = z3.simplify(core.coerce(idx, INT).v)
+        if not z3.is_int_value(i) or i.as_long() not in (0, 1):
+            raise Unsupported("request[...] with an index other than 0/1")
+        i = i.as_long()
+        u = base.v
+        if z3.is_app(u) and u.decl().name() == "r_arg":
+            yield st, (SV(SEQ(STR), a_comps(u)) if i == 0 else SV(OPT(BYTES), (a_ck_none(u), SV(BYTES, a_ck(u)))))
+            return
+        for s2, isnone in ex.fork(st, u == core.NONE_U):
+            if isnone:
+                ex.raise_(s2, sink, "TypeError", origin="None is not subscriptable")
+            else:
+                yield s2, (SV(STR, r_tag(u)) if i == 0 else SV(ANY, r_arg(u)))
+
+    w.call_hooks[("index", "any")] = index_any
+
+    def co(val, ty):
+        if ty == STR and val.ty.kind == "any":
+            return SV(STR, a_str(val.v))      # ("ack", path): the path as a dict key (a non-str would be a KeyError, which the lookup allows anyway)
+        return None
+
+    co.__name__ = "co_rsync_req"
+    core.COERCE_HOOKS[:] = [h for h in core.COERCE_HOOKS if getattr(h, "__name__", "") != "co_rsync_req"] + [co]
+
+    # ---- os.path.dirname(os.path.join(p, "x")): strips the trailing slash -----------------------------------------------------------------------------
+    base_join = w.externals["os.path.join"]
+    joined_x = {}
+
+    def join_hook(ex, args, kwargs, st, sink, node):
+        if len(args) == 2 and z3.is_string_value(z3.simplify(args[1].v)) and z3.simplify(args[1].v).as_string() == "x":
+            a = core.coerce(args[0], STR).v
+            t = z3.If(z3.SuffixOf(SLASH, a), z3.Concat(a, z3.StringVal("x")), z3.Concat(a, SLASH, z3.StringVal("x")))     # posixpath.join: no second slash
+            joined_x[t.get_id()] = (t, a)
+            yield st, SV(STR, t)
+            return
+        yield from base_join(ex, args, kwargs, st, sink, node)
+
+    def dirname_hook(ex, args, kwargs, st, sink, node):
+        p = core.coerce(args[0], STR).v
+        if p.get_id() not in joined_x:
+            raise Unsupported("os.path.dirname of anything but os.path.join(p, 'x')")
+        a = joined_x[p.get_id()][1]
+        cut = z3.SubSeq(a, 0, slen(a) - 1)
+        exotic = core.fresh(STR, "dirname").v           # several trailing slashes / the root directory: not characterised
+        yield st, SV(STR, z3.If(z3.Not(z3.SuffixOf(SLASH, a)), a, z3.If(z3.And(slen(cut) > 0, z3.Not(z3.SuffixOf(SLASH, cut))), cut, exotic)))
+
+    w.externals["os.path.join"] = join_hook
+    w.externals["os.path.dirname"] = dirname_hook
+
+    # ---- the contract -------------------------------------------------------------------------------------------------------------------------
+    SEND = f"{RSYNC}:RSync.send"
+
+    def base_of(sd):
+        return z3.If(z3.SuffixOf(SLASH, sd), z3.SubSeq(sd, 0, slen(sd) - 1), sd)
+
+    def send_req(a, h):
+        sd = h("RSync", a.self, "_sourcedir")
+        b = base_of(sd)
+        q = RSQ(h, a.self)
+        return [("queue", z3.And(q != 0, qpos(h, q) >= 0)),
+                ("source-directory-absolute-normalised-at-most-one-trailing-slash", z3.And(isabs(b), normalised(b), slen(b) > 1, z3.Not(z3.SuffixOf(SLASH, b)), isabs(h("FS", FSR, "cwd")))),
+                ("source-is-a-directory", fsget(h, "kind", b) == K_DIR),
+                ("link-targets-normalised", links_normalised_(h))]
+
+    def links_normalised_(h):
+        qv = z3.String("q_ln")
+        return z3.ForAll([qv], z3.Implies(fsget(h, "kind", qv) == K_LINK, z3.And(normalised(fsget(h, "target", qv)), slen(fsget(h, "target", qv)) > 0)), patterns=[fsget(h, "target", qv)])
+
+    def send_ok(a, h, h2, r):
+        q = RSQ(h, a.self)
+        b = base_of(h("RSync", a.self, "_sourcedir"))
+        O, O2 = h("RSync", a.self, "$out"), h2("RSync", a.self, "$out")
+        return [h2("RSync", a.self, "_sourcedir") == b,                                                            # the trailing slash is gone for everything that follows
+                chans(h2, a.self).v[0] == z3.K(z3.IntSort(), z3.BoolVal(False)),                                   # every target has reported "done"
+                z3.PrefixOf(O, O2), slen(O2) > slen(O), m_tag(O2[slen(O)]) == T_LIST,                              # the structure was broadcast, the root directory first
+                qpos(h2, q) >= qpos(h, q),
+                # every request taken from the queue was answered by its handler, for its channel, with its arguments, in arrival order - and nothing else was
+                handled(h2, a.self) == z3.Concat(handled(h, a.self), served(qc(h, q), qr(h, q), qpos(h, q), qpos(h2, q))),
+                z3.PrefixOf(h("RSync", a.self, "_links"), h2("RSync", a.self, "_links"))]
+
+    nonempty = lambda a, h: chans(h, a.self).v[0] != z3.K(z3.IntSort(), z3.BoolVal(False))
+    SENDMOD = lambda a, h: [("RSync", a.self, f) for f in ("_sourcedir", "_links", "$out", "_paths", "_to_send", "$reported", "_channels", "$finished_calls", "$handled", "$progress")] + [
+        ("RQueue", RSQ(h, a.self), "$pos"), ("Channel", None, "$sent")]
+    w.add(Contract(SEND, {"self": REF("RSync"), "raises": BOOL}, defaults={"raises": True}, requires=send_req, modifies=SENDMOD,
+                   cases=[Case("ok", when=nonempty, post=send_ok),
+                          Case("no-targets", when=lambda a, h: z3.And(z3.Not(nonempty(a, h)), z3.Not(a.raises)),
+                               post=lambda a, h, h2, r: [h2("RSync", a.self, "$out") == h("RSync", a.self, "$out"), handled(h2, a.self) == handled(h, a.self)]),
+                          Case("no-targets-raises", "raise", "OSError"),      # also: a target that ended early, a closed channel
+                          Case("remote-error", "raise", "RemoteError", when=nonempty), Case("connection-lost", "raise", "EOFError", when=nonempty),
+                          Case("special-file", "raise", "ValueError", when=nonempty), Case("callback-raises", "raise", "Exception", when=nonempty, post=from_callback),
+                          Case("path-without-recorded-size", "raise", "KeyError", when=nonempty)],
+                   props=["C17"], allocates=True))
+
+    def sizes_recorded(h, me):
+        c, j = z3.Int("q_sr_c"), z3.Int("q_sr_j")
+        T, P = h.sv("RSync", me, "_to_send"), h.sv("RSync", me, "_paths")
+        lst = z3.Select(T.v[1][0], c)
+        return z3.ForAll([c, j], z3.Implies(z3.And(z3.Select(T.v[0], c), j >= 0, j < slen(lst)), z3.Select(P.v[0], lst[j])), patterns=[lst[j]])
+
+    def send_inv(L):
+        h, pre, old = L.h, L.pre, L.old
+        me = L.inp("self")
+        q = RSQ(old, me)
+        return [("params", L.self == me),
+                ("source-directory-and-links-fixed-while-requests-are-served", z3.And(h("RSync", me, "_sourcedir") == pre("RSync", me, "_sourcedir"), h("RSync", me, "_links") == pre("RSync", me, "_links"),
+                                                                                  h("RSync", me, "$out") == pre("RSync", me, "$out"), RSQ(h, me) == q)),
+                ("queue-position", z3.And(qpos(h, q) >= qpos(pre, q), qpos(pre, q) == qpos(old, q), qc(h, q) == qc(old, q), qr(h, q) == qr(old, q))),
+                ("every-request-so-far-answered-by-its-handler", handled(h, me) == z3.Concat(handled(old, me), served(qc(old, q), qr(old, q), qpos(old, q), qpos(h, q))))]
+
+    w.add_loop(LoopSpec(SEND, 0, invariant=send_inv,
+                        havoc_cells=lambda L: [("RSync", L.inp("self"), f) for f in ("_paths", "_to_send", "$reported", "_channels", "$finished_calls", "$handled", "$progress")] + [
+                            ("RQueue", RSQ(L.old, L.inp("self")), "$pos")], havoc_fields=["Channel.$sent"], props=["C17"]))
     return w
